@@ -14,6 +14,8 @@ mod hist;
 mod ops_serde;
 #[cfg(feature = "rand")]
 mod ops_rand;
+#[cfg(any(feature = "arbitrary", feature = "quickcheck"))]
+mod ops_gen;
 #[cfg(feature = "guardalloc")]
 mod guard_alloc;
 
@@ -143,6 +145,8 @@ fn dispatch(t: &[&str], v: &[Val], out: &mut Out, st: &mut hist::State) {
     if ops_serde::run(op, t, v, out) { return; }
     #[cfg(feature = "rand")]
     if ops_rand::run(op, t, v, out) { return; }
+    #[cfg(any(feature = "arbitrary", feature = "quickcheck"))]
+    if ops_gen::run(op, t, v, out) { return; }
     #[cfg(feature = "guardalloc")]
     if op == "guardmode" {
         guard_alloc::set_mode(t[1]);
